@@ -75,24 +75,28 @@ def tcomp (A B : TensD α n) : TensD α n :=
 
 def tident [One α] : TensD α n := TensD.tab (fun a b c d => if a = c ∧ b = d then 1 else 0)
 
-/-- `_one_step_with_dense_TimeIndep`: `Udt = Ut1; for ti in range(2, Ndense+1): Udt = Ut1·Udt` -/
-def denseStep (U1 : TensD α n) : Nat → TensD α n
+/-- `_one_step_with_dense_TimeIndep`: `Udt = Ut1; for ti in range(2, Ndense+1): Udt = Ut1·Udt`
+(generic in the composition `*` so that the same definition is used with `tcomp` and in the theorems) -/
+def denseStep {M : Type} [Mul M] (U1 : M) : Nat → M
   | 0 => U1
-  | k + 1 => tcomp U1 (denseStep U1 k)
+  | k + 1 => U1 * denseStep U1 k
 
 /-- `calculate()`: `data[0] = 1`, `data[1] = Udt`, `data[ti] = Udt·data[ti-1]` -/
-def evolAll [One α] (Udt : TensD α n) : Nat → List (TensD α n)
+def evolAll {M : Type} [Mul M] (one Udt : M) : Nat → List M
   | 0 => []
   | nt + 1 =>
-    let rec go : Nat → TensD α n → List (TensD α n)
+    let rec go : Nat → M → List M
       | 0, _ => []
-      | k + 1, u => u :: go k (tcomp Udt u)
-    tident :: go nt Udt
+      | k + 1, u => u :: go k (Udt * u)
+    one :: go nt Udt
 
-/-- `calculate_next()` called `k ≥ 1` times in jit mode: the stored tensor -/
-def evolJit (Udt : TensD α n) : Nat → TensD α n
+/-- `calculate_next()` called `k+1` times in jit mode: the stored tensor -/
+def evolJit {M : Type} [Mul M] (Udt : M) : Nat → M
   | 0 => Udt
-  | k + 1 => tcomp Udt (evolJit Udt k)
+  | k + 1 => Udt * evolJit Udt k
+
+/-- superoperators under `numpy.tensordot` -/
+def tensMul : Mul (TensD α n) := ⟨tcomp⟩
 end
 
 end QV.Prop
